@@ -8,7 +8,10 @@ import plistlib
 import xml.etree.ElementTree as ET
 
 STR_POOL = ["", "a", "b", "ab", "ba", "abc", "abd", "xbc", "aaa", "hello", "help", "é", "日本", "a b", "q\"t", "x\\y",
-            "line\nbreak", "0", "true", "null"]
+            "line\nbreak", "0", "true", "null",
+            # multi-line text (block literals in YAML) and the line-boundary characters other than \n that
+            # str.splitlines() knows: unusual, legal, and exactly where line-oriented buffering goes wrong
+            "line\nbroken", "l1\nl2\nl3", "a\u2028b", "n\u0085l", "f\x0cf", "v\x0bt"]
 KEY_POOL = ["a", "b", "c", "k", "id", "name", "é", "x y"]
 TAG_POOL = ["a", "b", "c", "item", "div", "p"]
 
@@ -73,6 +76,30 @@ def gen_renamed_dicts(r):
             b[k] = val()
     if r.random() < 0.3:
         return [a, 1], [b, 1]
+    return a, b
+
+
+def gen_config_pair(r):
+    """A configuration-like mapping with a MULTI-LINE string (a YAML block literal) and nested single-line strings;
+    the second document changes a line of the block and/or a nested single-line string."""
+    lines = [r.choice(["echo a", "make", "run --x", "é", "exit 0"]) for _ in range(r.choice([2, 3, 4]))]
+    a = {"name": r.choice(["svc", "web", "db"]), "script": "\n".join(lines),
+         "limits": {"mem": r.choice([512, 1024]), "tier": r.choice(["gold", "silver"])},
+         "hosts": [r.choice(["alpha", "beta"]), r.choice(["gamma", "delta"])]}
+    b = json.loads(json.dumps(a))
+    what = r.choice(["block", "nested", "both", "both", "block+list"])
+    if "block" in what or what == "both":
+        ls = list(lines)
+        ls[r.randrange(len(ls))] = r.choice(["echo b", "make all", "exit 1"])
+        if r.random() < 0.3:
+            ls.append("done")
+        b["script"] = "\n".join(ls)
+    if what in ("nested", "both"):
+        b["limits"]["tier"] = r.choice(["bronze", "golden", "silvern"])
+    if "list" in what:
+        b["hosts"][0] = b["hosts"][0] + "2"
+    if r.random() < 0.3:
+        return [a, "x"], [b, "x"]
     return a, b
 
 
@@ -170,7 +197,7 @@ def _mutate_once(r, v, profile):
         i = r.randint(0, len(s))
         op = r.random()
         if op < 0.4:
-            s = s[:i] + r.choice("abxé") + s[i:]
+            s = s[:i] + r.choice("abxé" if r.random() < 0.9 else "\n\u2028") + s[i:]
         elif op < 0.7 and s:
             j = r.randrange(len(s))
             s = s[:j] + s[j + 1:]
@@ -193,7 +220,7 @@ def gen_xml(r, depth=3, html=False):
     attrib = {}
     for _ in range(r.choice([0, 0, 1, 2])):
         attrib[r.choice(["id", "k", "class", "x"])] = r.choice(["", "a", "b", "ab", "1", "é"])
-    text = r.choice([None, None, "a", "ab", "hello", "x < y", "é", " "])
+    text = r.choice([None, None, "a", "ab", "hello", "x < y", "é", " ", "x\u2028y", "u\u0085v", "two\nlines"])
     kids = []
     if depth > 0:
         for _ in range(r.choice([0, 1, 2, 2, 3])):
